@@ -53,8 +53,8 @@ def sweep_leg(chk, quick):
     the neighbourhood of 2^16), and strings / binary / arrays at the 16/32-bit length thresholds."""
     import os
     neg, pos = (300, 300) if quick else (32770, 65540)
-    longs = "{}" if quick else "{65535, 65536}"
-    cfg = mp.write_cfg("mc_sweep.cfg", "SPECIFICATION Spec\nCONSTANTS\n  SweepNeg = %d\n  SweepPos = %d\n  LongLens = %s\nINVARIANTS EncoderConsistent ShortestInt Export\n" % (neg, pos, longs))
+    longs = "{65536}" if quick else "{65535, 65536}"
+    cfg = mp.write_cfg("mc_sweep.cfg", "SPECIFICATION Spec\nCONSTANTS\n  SweepNeg = %d\n  SweepPos = %d\n  LongLens = %s\n  LongKinds = %s\nINVARIANTS EncoderConsistent ShortestInt Export\n" % (neg, pos, longs, '{"str", "bin"}' if quick else '{"str", "bin", "arr"}'))
     r = vlib.tlc("MC_SaveSweep", cfg=cfg, timeout=3000, xmx="8g")
     chk.add_tlc("MC_SaveSweep", r, {"SweepNeg": neg, "SweepPos": pos, "LongLens": longs})
     scen = r.printed("GEN")
